@@ -32,6 +32,8 @@ MENU = [
     LONG, "(1, 2,", "a/b/c/any(", "'unterminated",
     # the same function first valid, then with a wrong argument count / in another namespace (per-instance memo tables)
     "zz(1) eq eq 2", "substring(a) and", "length(a, b) eq (1",
+    # equal after collapsing whitespace, different inside a quoted literal (text-keyed token caches)
+    "a eq 'big  data'", "a eq 'big data'", "a  eq 'big data'",
     "length(a) eq 1", "substring(a, 1) eq 'x'", "substring(a) eq 'x'", "geo.length(a, b)", "ns.length(a, b, c) eq 1",
 ]
 
@@ -48,6 +50,19 @@ def outcome_of(lexer, parser, text):
     if r is None:
         return ("none",)
     return ("ok", digest_ast(r))
+
+
+def _fresh_in_new_process(text):
+    return outcome_of(ODataLexer(), ODataParser(), text)
+
+
+def prime_fresh_outcomes(texts):
+    """reference outcomes: every text parsed by fresh instances in a process of its OWN (maxtasksperchild=1), so that
+    class-/module-level state left behind by other inputs cannot leak into the reference"""
+    import multiprocessing as mp
+    with mp.get_context("fork").Pool(8, maxtasksperchild=1) as pool:
+        for t, o in zip(texts, pool.map(_fresh_in_new_process, texts, chunksize=1)):
+            _fresh_cache[t] = o
 
 
 def fresh_outcome(text):
@@ -359,6 +374,9 @@ def rewriter_check(ctx, witness):
 
 
 def run(ctx):
+    sched_texts = ["a eq 1", "b in (1, 2)", "a eq", "xs/any(x: x/p gt 1)", "zz(1) eq 2", "a add 1 eq 2", "$a", "not (a eq 1)", "length(a, b)",
+                   "a/b/c eq 'x'", "b lt 2", "c/d ge 3", "zz(1)", "(1, 2)"]
+    prime_fresh_outcomes(list(dict.fromkeys(MENU + sched_texts)))
     # 1. all histories (no dedup)
     k = 3 if ctx.quick else 4
     hs = list(all_histories(k, 1))
